@@ -1,7 +1,7 @@
 #!/bin/sh
 # tools/verify_seed.sh <out-dir with patch.diff + demo.py>  -- confirm a seeded change myself in a scratch copy:
 # demo passes without / fails with the change, the 209 baseline tests still pass with it
-D=$1
+D=$(cd "$1" && pwd)
 S=/var/tmp/pgf-vs-$$
 rm -rf $S && mkdir -p $S && rsync -a --exclude .git /repo/ $S/
 sed -E "s#/tmp/seed[0-9]*/C[0-9]+\b#$S#g" $D/demo.py > $S/_demo.py
